@@ -273,6 +273,31 @@ impl<'a> Gen<'a> {
                 }
             }
         }
+        if self.cfg.wide_children && self.rng.chance(60, 100) {
+            // The same for IPv6.
+            let siblings: Vec<P6> = world.cas[parent].children.iter()
+                .flat_map(|c| world.cas[*c].cert.res.v6.clone())
+                .filter(|p| p.len != 0).collect();
+            if !siblings.is_empty() {
+                let base = *self.rng.pick(&siblings);
+                let nested = self.sub_v6(base, 2, 8, 64);
+                if nested != base {
+                    res.v6 = vec![nested];
+                }
+            }
+        }
+        if self.cfg.wide_children && self.rng.chance(35, 100) {
+            // All of one address family, specific blocks of the other.
+            let pool = world.cas[parent].cert.res.clone();
+            if self.rng.chance(50, 100) {
+                if pool.v4.iter().any(|p| p.len == 0) {
+                    res.v4 = vec![P4::new(0, 0)];
+                }
+            }
+            else if pool.v6.iter().any(|p| p.len == 0) {
+                res.v6 = vec![P6::new(0, 0)];
+            }
+        }
         let serial = world.serial();
         let cert = CertSpec {
             name: format!("ca{idx}.cer"),
